@@ -1,7 +1,289 @@
 /-
-  Helper lemmas (RunM).
+  Helper lemmas (RunM): the frame of a run at tree level (C03frame).
+
+  * `FrInv`: a name that is not an export image keeps its inode and its content (the structural part is `RunK.SInv`);
+  * `applyOp_isDir`: no logged operation removes a directory;
+  * `OpFactM`/`run_opFactM`: an `openc` of the run names an export image, a `mkdirs` the parent of one;
+  * `NInv`: names and directories of the replayed tree are old or (prefixes of) export images.
 -/
 import TB.Spec.ExportSpec
+import TB.Lemmas.RunK
 namespace TB.RunM
+open TB
+
+variable {table : List TEntry} {fs0 : Fs}
+
+/-! ### a file outside the export images -/
+
+/-- the name `p` (inode `i` at the start) is outside the images; its content is the initial one -/
+structure FrInv (table : List TEntry) (i : Nat) (fs0 fs : Fs) : Prop where
+  s : RunK.SInv table fs0 fs
+  c : fs.content i = fs0.content i
+
+theorem FrInv.step {H : Bytes → Bytes} {work : List Work} {p : Path} {i : Nat} {fs : Fs}
+    (hp : fs0.inoOf p = some i)
+    (hout : ∀ e ∈ table, e.isPad = false → e.fullTarget ≠ p)
+    (o : Op) (hf : RunJ.OpFact H work table o) (h : FrInv table i fs0 fs) : FrInv table i fs0 (applyOp fs o) := by
+  refine ⟨h.s.step o, ?_⟩
+  have hi' := h.s.keep _ _ hp
+  rcases RunK.applyOp_content o i (h.s.lt _ _ hi') with e | ⟨hl, hk⟩
+  · rw [e]; exact h.c
+  · exfalso
+    have hio := RunF.look_file_inoOf hl
+    obtain ⟨e, he, hpe, hpath⟩ := RunK.opFact_path hf (by
+      rcases hk with ⟨n, hk, _⟩ | ⟨off, d, hk, _⟩
+      · exact Or.inl ⟨n, hk⟩
+      · exact Or.inr ⟨off, d, hk⟩)
+    rw [hpath] at hio
+    exact hout e he hpe (h.s.na e he hpe _ _ hio hi').symm
+
+theorem frame (H : Bytes → Bytes) (inp : RunIn) (hwf : FsWF inp.fs)
+    (hna : RunJ.NoAl inp.fs (run H inp).table) (p : Path) (i : Nat)
+    (hp : inp.fs.inoOf p = some i)
+    (hout : ∀ e ∈ (run H inp).table, e.isPad = false → e.fullTarget ≠ p)
+    (ops : List Op) (hops : ∀ o ∈ ops, o ∈ (run H inp).ops) :
+    (replay inp.fs ops).inoOf p = some i ∧ (replay inp.fs ops).content i = inp.fs.content i := by
+  have h0 : FrInv (run H inp).table i inp.fs inp.fs := ⟨RunK.SInv.base hwf hna, rfl⟩
+  have := RunK.replay_ind (Q := FrInv (run H inp).table i inp.fs)
+    (F := RunJ.OpFact H (run H inp).work (run H inp).table)
+    (fun fs o hf h => FrInv.step hp hout o hf h) ops inp.fs
+    (fun o ho => RunJ.run_opFact H inp o (hops o ho)) h0
+  exact ⟨this.s.keep p i hp, this.c⟩
+
+/-! ### directories are never removed -/
+
+theorem applyOp_isDir {fs : Fs} (o : Op) {d : Path} (hd : fs.isDir d = true) : (applyOp fs o).isDir d = true := by
+  unfold applyOp
+  cases o.kind with
+  | mkdirs =>
+    simp only []
+    split
+    · exact (RunF.mkdirs_spec fs o.path).2.2.2.1 d hd
+    · exact hd
+  | openc =>
+    simp only []
+    split
+    · rcases RunF.openCreate_cases fs o.path with e | ⟨_, e⟩
+      · rw [e]; exact hd
+      · rw [e, RunF.isDir_addFile]; exact hd
+    · exact hd
+  | setlen n =>
+    simp only []
+    split
+    · cases fs.look o.path with
+      | file i => exact hd
+      | _ => exact hd
+    · exact hd
+  | write off b =>
+    simp only []
+    split
+    · cases fs.look o.path with
+      | file i => exact hd
+      | _ => exact hd
+    · exact hd
+  | _ => exact hd
+
+theorem replay_isDir (ops : List Op) (fs : Fs) {d : Path} (hd : fs.isDir d = true) :
+    (replay fs ops).isDir d = true :=
+  RunK.replay_ind (Q := fun fs => fs.isDir d = true) (F := fun _ => True)
+    (fun _ o _ h => applyOp_isDir o h) ops fs (fun _ _ => trivial) hd
+
+/-! ### what `create_dir_all` adds -/
+
+theorem mkdirsAux_new (l : List Path) : ∀ (fs fs' : Fs), Fs.mkdirsAux fs l = some fs' →
+    ∀ d, fs'.isDir d = true → fs.isDir d = true ∨ d ∈ l := by
+  induction l with
+  | nil =>
+    intro fs fs' h d hd
+    simp only [Fs.mkdirsAux, Option.some.injEq] at h
+    subst h
+    exact Or.inl hd
+  | cons q rest ih =>
+    intro fs fs' h d hd
+    simp only [Fs.mkdirsAux] at h
+    split at h
+    · rcases ih _ _ h d hd with h' | h'
+      · exact Or.inl h'
+      · exact Or.inr (List.mem_cons_of_mem _ h')
+    · split at h
+      · cases h
+      · rcases ih _ _ h d hd with h' | h'
+        · rw [RunF.isDir_cons, Bool.or_eq_true] at h'
+          rcases h' with h' | h'
+          · exact Or.inl h'
+          · right
+            have : d = q := by simpa using h'
+            rw [this]; exact List.mem_cons_self
+        · exact Or.inr (List.mem_cons_of_mem _ h')
+
+theorem prefix_of_mem {p d : Path} (h : d ∈ Fs.properPrefixes p ++ [p]) : Path.isPrefixOf d p := by
+  rcases List.mem_append.1 h with h | h
+  · obtain ⟨n, _, _, rfl⟩ := RunF.mem_properPrefixes.1 h
+    exact ⟨p.drop n, (List.take_append_drop n p).symm⟩
+  · rw [List.mem_singleton] at h
+    subst h
+    exact ⟨[], (List.append_nil _).symm⟩
+
+theorem mkdirs_new (fs : Fs) (p d : Path) (hd : (fs.mkdirs p).1.isDir d = true) :
+    fs.isDir d = true ∨ Path.isPrefixOf d p := by
+  unfold Fs.mkdirs at hd
+  split at hd
+  · rename_i fs' h
+    rcases mkdirsAux_new _ _ _ h d hd with h' | h'
+    · exact Or.inl h'
+    · exact Or.inr (prefix_of_mem h')
+  · exact Or.inl hd
+
+/-! ### names and directories after one operation -/
+
+theorem applyOp_inoOf {fs : Fs} (o : Op) {q : Path} {j : Nat} (h : (applyOp fs o).inoOf q = some j) :
+    fs.inoOf q = some j ∨ (o.kind = .openc ∧ q = o.path) := by
+  unfold applyOp at h
+  cases hk : o.kind with
+  | mkdirs =>
+    rw [hk] at h
+    simp only [] at h
+    split at h
+    · rw [RunF.inoOf_congr (RunF.mkdirs_spec fs o.path).1] at h; exact Or.inl h
+    · exact Or.inl h
+  | openc =>
+    rw [hk] at h
+    simp only [] at h
+    split at h
+    · rcases RunF.openCreate_cases fs o.path with e | ⟨_, e⟩
+      · rw [e] at h; exact Or.inl h
+      · rw [e, RunF.inoOf_addFile] at h
+        split at h
+        · rename_i e'; exact Or.inr ⟨rfl, e'.symm⟩
+        · exact Or.inl h
+    · exact Or.inl h
+  | setlen n =>
+    rw [hk] at h
+    simp only [] at h
+    split at h
+    · cases hl : fs.look o.path with
+      | file i => rw [hl] at h; exact Or.inl h
+      | notFound => rw [hl] at h; exact Or.inl h
+      | notDir => rw [hl] at h; exact Or.inl h
+      | dir => rw [hl] at h; exact Or.inl h
+    · exact Or.inl h
+  | write off b =>
+    rw [hk] at h
+    simp only [] at h
+    split at h
+    · cases hl : fs.look o.path with
+      | file i => rw [hl] at h; exact Or.inl h
+      | notFound => rw [hl] at h; exact Or.inl h
+      | notDir => rw [hl] at h; exact Or.inl h
+      | dir => rw [hl] at h; exact Or.inl h
+    · exact Or.inl h
+  | stat => rw [hk] at h; exact Or.inl h
+  | openr => rw [hk] at h; exact Or.inl h
+  | openrw => rw [hk] at h; exact Or.inl h
+  | seek n => rw [hk] at h; exact Or.inl h
+  | read => rw [hk] at h; exact Or.inl h
+
+theorem applyOp_isDir_new {fs : Fs} (o : Op) {d : Path} (h : (applyOp fs o).isDir d = true) :
+    fs.isDir d = true ∨ (o.kind = .mkdirs ∧ Path.isPrefixOf d o.path) := by
+  unfold applyOp at h
+  cases hk : o.kind with
+  | mkdirs =>
+    rw [hk] at h
+    simp only [] at h
+    split at h
+    · rcases mkdirs_new fs o.path d h with h' | h'
+      · exact Or.inl h'
+      · exact Or.inr ⟨rfl, h'⟩
+    · exact Or.inl h
+  | openc =>
+    rw [hk] at h
+    simp only [] at h
+    split at h
+    · rcases RunF.openCreate_cases fs o.path with e | ⟨_, e⟩
+      · rw [e] at h; exact Or.inl h
+      · rw [e, RunF.isDir_addFile] at h; exact Or.inl h
+    · exact Or.inl h
+  | setlen n =>
+    rw [hk] at h
+    simp only [] at h
+    split at h
+    · cases hl : fs.look o.path with
+      | file i => rw [hl] at h; exact Or.inl h
+      | notFound => rw [hl] at h; exact Or.inl h
+      | notDir => rw [hl] at h; exact Or.inl h
+      | dir => rw [hl] at h; exact Or.inl h
+    · exact Or.inl h
+  | write off b =>
+    rw [hk] at h
+    simp only [] at h
+    split at h
+    · cases hl : fs.look o.path with
+      | file i => rw [hl] at h; exact Or.inl h
+      | notFound => rw [hl] at h; exact Or.inl h
+      | notDir => rw [hl] at h; exact Or.inl h
+      | dir => rw [hl] at h; exact Or.inl h
+    · exact Or.inl h
+  | stat => rw [hk] at h; exact Or.inl h
+  | openr => rw [hk] at h; exact Or.inl h
+  | openrw => rw [hk] at h; exact Or.inl h
+  | seek n => rw [hk] at h; exact Or.inl h
+  | read => rw [hk] at h; exact Or.inl h
+
+/-! ### the creating operations of a run -/
+
+/-- an `openc` names the image of a non-padding table entry, a `mkdirs` the parent of one -/
+def OpFactM (table : List TEntry) (o : Op) : Prop :=
+  (o.kind = .openc → ∃ e ∈ table, e.isPad = false ∧ o.path = e.fullTarget) ∧
+  (o.kind = .mkdirs → ∃ e ∈ table, e.isPad = false ∧ o.path = e.fullTarget.dropLast)
+
+theorem run_opFactM (H : Bytes → Bytes) (inp : RunIn) :
+    ∀ o ∈ (run H inp).ops, OpFactM (run H inp).table o := by
+  intro o ho
+  rcases (run_inv H inp).2 o ho with (h | h | ⟨e, he, hp, hkind, hpath⟩) | ⟨w, hw, h, hent⟩
+  · exact ⟨fun hk => (by rw [h] at hk; cases hk), fun hk => (by rw [h] at hk; cases hk)⟩
+  · exact ⟨fun hk => (by rw [h] at hk; cases hk), fun hk => (by rw [h] at hk; cases hk)⟩
+  · refine ⟨fun hk => ?_, fun hk => ?_⟩
+    · rcases hkind with h | h <;> (rw [h] at hk; cases hk)
+    · rcases hkind with h | h <;> (rw [h] at hk; cases hk)
+  · rcases h with h | ⟨buf, hb, k, seg, hseg, hp, hs⟩
+    · refine ⟨fun hk => ?_, fun hk => ?_⟩
+      · rcases h with h | ⟨m, h⟩ | h <;> (rw [h] at hk; cases hk)
+      · rcases h with h | ⟨m, h⟩ | h <;> (rw [h] at hk; cases hk)
+    · have hmem := List.mem_of_getElem? hseg
+      have hc := hs.confined.1
+      refine ⟨fun hk => ?_, fun hk => ?_⟩
+      · refine ⟨seg.ent, hent seg hmem, hp, ?_⟩
+        rw [hk] at hc; simpa using hc
+      · refine ⟨seg.ent, hent seg hmem, hp, ?_⟩
+        rw [hk] at hc; simpa using hc
+
+/-! ### nothing new elsewhere -/
+
+structure NInv (table : List TEntry) (fs0 fs : Fs) : Prop where
+  f : ∀ q j, fs.inoOf q = some j →
+    fs0.inoOf q = some j ∨ ∃ e ∈ table, e.isPad = false ∧ e.fullTarget = q
+  d : ∀ d, fs.isDir d = true →
+    fs0.isDir d = true ∨ ∃ e ∈ table, e.isPad = false ∧ Path.isPrefixOf d e.fullTarget.dropLast
+
+theorem NInv.step {fs : Fs} (o : Op) (hf : OpFactM table o) (h : NInv table fs0 fs) :
+    NInv table fs0 (applyOp fs o) := by
+  refine ⟨?_, ?_⟩
+  · intro q j hq
+    rcases applyOp_inoOf o hq with h' | ⟨hk, rfl⟩
+    · exact h.f q j h'
+    · obtain ⟨e, he, hp, hpath⟩ := hf.1 hk
+      exact Or.inr ⟨e, he, hp, hpath.symm⟩
+  · intro d hd
+    rcases applyOp_isDir_new o hd with h' | ⟨hk, hpre⟩
+    · exact h.d d h'
+    · obtain ⟨e, he, hp, hpath⟩ := hf.2 hk
+      rw [hpath] at hpre
+      exact Or.inr ⟨e, he, hp, hpre⟩
+
+theorem nothing_new (H : Bytes → Bytes) (inp : RunIn) (ops : List Op) (hops : ∀ o ∈ ops, o ∈ (run H inp).ops) :
+    NInv (run H inp).table inp.fs (replay inp.fs ops) :=
+  RunK.replay_ind (Q := NInv (run H inp).table inp.fs) (F := OpFactM (run H inp).table)
+    (fun _ o hf h => h.step o hf) ops inp.fs (fun o ho => run_opFactM H inp o (hops o ho))
+    ⟨fun _ _ h => Or.inl h, fun _ h => Or.inl h⟩
 
 end TB.RunM
